@@ -24,7 +24,16 @@ ASSUMPTIONS = [
     'leaf values: small ints, strs, None, floats; set patterns hold hashable leaf patterns only',
 ]
 
-TYPES = {'int': int, 'str': str, 'object': object, 'dict': dict, 'list': list, 'float': float}
+class _EvenMeta(type):
+    def __instancecheck__(cls, obj):
+        return type(obj) is int and obj % 2 == 0
+
+
+class Even(metaclass=_EvenMeta):
+    """a refinement type: whether something is an instance depends on the VALUE, not only on its type"""
+
+
+TYPES = {'int': int, 'str': str, 'object': object, 'dict': dict, 'list': list, 'float': float, 'even': Even}
 
 
 def pos(x):
@@ -316,7 +325,7 @@ def wit(p, alt=0):
         return ['n'] if v is None else ['i', v] if isinstance(v, int) else ['s', v]
     if k == 'type':
         return {'int': ['i', 4 + alt], 'str': ['s', 'w' * (alt + 1)], 'object': [['n'], ['l', []]][alt % 2], 'dict': ['d', []],
-                'list': ['l', []], 'float': ['f', 1.5]}[p[1]]
+                'list': ['l', []], 'float': ['f', 1.5], 'even': ['i', 4 + 2 * alt]}[p[1]]
     if k == 'regex':
         return ['s', 'aa' if alt else 'a']
     if k == 'regex-bytes':
@@ -516,7 +525,7 @@ def run_case(case):
 
 # ------------------------------------------------------------------ pattern generator
 
-LEAVES = [['lit', 1], ['lit', 'a'], ['lit', None], ['type', 'int'], ['type', 'str'], ['type', 'object'],
+LEAVES = [['lit', 1], ['lit', 'a'], ['lit', None], ['type', 'int'], ['type', 'str'], ['type', 'object'], ['type', 'even'],
           ['regex', 'a+'], ['pred', 'pos'], ['pred', 'boom'], ['pred', 'ratio'], ['pred', 'partial-gt3'], ['pred', 'callable-object'], ['pred', 'vague'], ['regex-bytes', 'a+'], ['M', '>', 0], ['M', '==', 'a'], ['M', '>=', 0], ['M', '<=', 0.5], ['M', '!=', 'a'],
           ['and', [['type', 'int'], ['M', '>', 0]]], ['or', [['type', 'int'], ['type', 'str']]], ['or', [['lit', 1], ['lit', 'a']]],
           ['not', ['type', 'str']], ['not', ['lit', 1]]]
